@@ -13,6 +13,8 @@ import PsutilModel.Proofs.C19Cpu
 import PsutilModel.Proofs.C19Text
 import PsutilModel.Proofs.C19Cores
 import PsutilModel.Proofs.C19Ext
+import PsutilModel.Proofs.C19Dir
+import PsutilModel.Proofs.C19Num
 import PsutilModel.Model.C19Gen
 namespace Psutil.C19
 open Spec
@@ -630,5 +632,234 @@ theorem C19_cpu_stats (r : StatRec) :
 
 /-- **boot_time**: the `btime` line -/
 theorem C19_boot_time (r : StatRec) : bootTime (.content (renderStat r)) = .ok (r.btime : Rat) := bootTime_render r
+
+/-! ## round 2: the directories at file-name level -/
+
+/-- **Every trip point is considered, whatever its index.** If the zone directory lists ANY file
+    `trip_point_<n>_<…>` (n printed by the kernel with `%d`: any number of digits), then
+    `trip_point_<n>` is an element of the set the walker iterates over, and the two files it reads
+    for that element are `trip_point_<n>_type` and `trip_point_<n>_temp`. -/
+theorem C19_zone_all_trip_points (d : Dir) (n : Nat) (s : Bytes)
+    (h : tripPointName n ++ 95 :: s ∈ d.names) :
+    tripPointName n ∈ tripNames d ∧
+    tripOfName d (tripPointName n)
+      = { typ := d.file (tripFile n bSufType), temp := d.file (tripFile n bSufTemp), hyst := true } := by
+  refine ⟨?_, rfl⟩
+  unfold tripNames tripFiles
+  rw [List.mem_map]
+  exact ⟨_, List.mem_filter.mpr ⟨h, tripFile_prefix n (95 :: s)⟩, tripName_tripFile n s⟩
+
+/-- …and nothing else is: on a directory whose `trip_point*` files carry the kernel's names, the
+    set is exactly `{trip_point_<n> | n an index present}` — any iteration order of it is a
+    permutation of the kernel's trip points. -/
+theorem C19_zone_trip_set (d : Dir) (hk : KernelNamed d) (order : List Bytes)
+    (ho : isSetOrder order (tripNames d) = true) :
+    order.Perm ((tripIdxs d).map tripPointName) ∧ (zoneOfDir d order).trips.Perm (kernelZone d).trips :=
+  ⟨setOrder_perm d hk order ho, zoneOfDir_trips_perm d hk order ho⟩
+
+/-- the kernel's three file names of trip point `n` are recognised as belonging to `n`, and only they -/
+theorem C19_trip_index (n : Nat) :
+    (∀ suf ∈ kernelSuffixes, tripIndex? (tripFile n suf) = some n) ∧
+    (∀ name, tripIndex? name = some n → ∃ suf ∈ kernelSuffixes, name = tripFile n suf) :=
+  ⟨tripIndex_tripFile n, fun name h => tripIndex_sound name n h⟩
+
+/-- **Zone row from the directory listing**: for every directory with kernel-named trip-point
+    files and EVERY iteration order of the set of derived names, the walker's row for the zone is
+    the row of the kernel's description (current = temp/1000, unit = type, high/critical = THE
+    `high`/`critical` trip point's temperature / 1000 — trip points with index ≥ 10 included). -/
+theorem C19_zone_dir_refines (d : Dir) (hk : KernelNamed d) (order : List Bytes)
+    (ho : isSetOrder order (tripNames d) = true) :
+    match zoneRow (kernelZone d) with
+    | none => readZone cfg (zoneOfDir d order) = .ok none
+    | some w => ∃ r, readZone cfg (zoneOfDir d order) = .ok (some r) ∧ AgreesRaw r w :=
+  readZone_agrees_perm cfg cfg_good (kernelZone d) (zoneOfDir d order) rfl rfl (zoneOfDir_trips_perm d hk order ho)
+
+/-- **end to end**: the critical trip point has index `n` (ANY n) and kernel-format files →
+    critical = its temperature / 1000 -/
+theorem C19_zone_dir_critical (d : Dir) (hk : KernelNamed d) (order : List Bytes)
+    (ho : isSetOrder order (tripNames d) = true) (n : Nat) (cur t : Int) (nm : Bytes)
+    (hT : d.file bNameTemp = .content (kernelInt cur)) (hN : d.file bNameType = .content nm)
+    (hidx : (tripIdxs d).filter (fun m => fileText (d.file (tripFile m bSufType)) == bCritical) = [n])
+    (htemp : d.file (tripFile n bSufTemp) = .content (kernelInt t)) :
+    ∃ r, readZone cfg (zoneOfDir d order) = .ok (some r) ∧ r.current = (cur : Rat) / 1000 ∧
+      r.crit = some ((t : Rat) / 1000) ∧ r.unit = stripWs nm := by
+  have h := C19_zone_dir_refines d hk order ho
+  have hz : zoneRow (kernelZone d) = some
+      { unit := stripWs nm, label := [], current := perMille (cur : Rat)
+        high := zoneThresh bHigh (kernelZone d).trips, crit := some (some (perMille (t : Rat))) } := by
+    unfold zoneRow
+    have e1 : (kernelZone d).temp = .content (kernelInt cur) := hT
+    have e2 : (kernelZone d).typ = .content nm := hN
+    have e3 : zoneThresh bCritical (kernelZone d).trips = some (some (perMille (t : Rat))) := by
+      unfold zoneThresh
+      show (match tripsOfType bCritical ((tripIdxs d).map (dirTrip d)) with
+        | [] => some none | [t] => some ((fileNum t.temp).map perMille) | _ => none) = _
+      rw [tripsOfType_dirTrip, hidx]
+      simp [dirTrip, htemp, fileNum, FileState.readOpt, pyFloat_renderInt_strip]
+    rw [e1, e2, e3]
+    simp [fileNum, FileState.readOpt, pyFloat_renderInt_strip]
+  rw [hz] at h
+  obtain ⟨r, hr, ha⟩ := h
+  refine ⟨r, hr, ?_, ?_, ?_⟩
+  · rw [ha.current]; rfl
+  · exact ha.crit _ rfl
+  · exact ha.unit
+
+/-- hwmon: **every sensor / fan index is considered**: a listed file `temp<n>_<…>` (`fan<n>_<…>`)
+    puts the base `temp<n>` into the set of bases, and the files read for it are `temp<n>_input`,
+    `_label`, `_max`, `_crit` -/
+theorem C19_hwmon_all_sensor_indices (pre : Bytes) (hpre : 95 ∉ pre) (d : Dir) (n : Nat) (s : Bytes)
+    (h : attrBase pre n ++ 95 :: s ∈ d.names) :
+    attrBase pre n ∈ sensorBases pre d ∧
+    (sensorOfBase d (attrBase pre n)).input = d.file (attrBase pre n ++ bSufInput) ∧
+    (∀ m, attrBase pre n = attrBase pre m → n = m) :=
+  ⟨mem_sensorBases pre hpre d n s h, rfl, fun m e => renderDec_inj n m (List.append_cancel_left e)⟩
+
+/-- non-vacuity: a zone directory whose only trip point has index 12 (critical, 105000) -/
+def exZoneDir : Dir :=
+  [ (bNameTemp, some (kernelInt 30000)), (bNameType, some [120, 10]),
+    (tripFile 12 bSufType, some [99, 114, 105, 116, 105, 99, 97, 108, 10]),
+    (tripFile 12 bSufTemp, some (kernelInt 105000)) ]
+
+example : KernelNamed exZoneDir ∧ tripIdxs exZoneDir = [12] ∧
+    isSetOrder [tripPointName 12] (tripNames exZoneDir) = true := by
+  have hf : tripFiles exZoneDir = [tripFile 12 bSufType, tripFile 12 bSufTemp] := by
+    have h1 : bTripPoint.isPrefixOf bNameTemp = false := by decide
+    have h2 : bTripPoint.isPrefixOf bNameType = false := by decide
+    simp [tripFiles, Dir.names, exZoneDir, List.filter, h1, h2, tripFile_prefix]
+  have hs1 : bSufType ∈ kernelSuffixes := by decide
+  have hs2 : bSufTemp ∈ kernelSuffixes := by decide
+  refine ⟨?_, ?_, ?_⟩
+  · intro name hn
+    rw [hf] at hn
+    simp only [List.mem_cons, List.not_mem_nil, or_false] at hn
+    rcases hn with rfl | rfl
+    · rw [tripIndex_tripFile 12 _ hs1]; rfl
+    · rw [tripIndex_tripFile 12 _ hs2]; rfl
+  · unfold tripIdxs
+    rw [hf]
+    simp [List.filterMap, tripIndex_tripFile 12 _ hs1, tripIndex_tripFile 12 _ hs2]
+    decide
+  · unfold tripNames
+    rw [hf]
+    simp [isSetOrder, tripName_kernel 12 _ hs1, tripName_kernel 12 _ hs2]
+
+/-! ## round 2: battery selection, blanks, negative figures -/
+
+/-- **Which power supplies count as a battery**: the name starts with `BAT` (case-sensitive) or
+    contains `battery` in any case. Nothing else is looked at (not the `type`, not the `scope` file):
+    a HID device battery (`hidpp_battery_0`) qualifies, `CMB0` or `bat0` do not. -/
+theorem C19_battery_name_rule (n : Bytes) :
+    isBattery cfg n = (bBAT.isPrefixOf n || isInfix bBattery (lower n)) := isBattery_eq cfg cfg_good n
+
+theorem C19_battery_name_examples :
+    isBatteryName [66, 65, 84, 49] = true ∧                                                    -- BAT1
+    isBatteryName [104, 105, 100, 112, 112, 95, 98, 97, 116, 116, 101, 114, 121, 95, 48] = true ∧  -- hidpp_battery_0
+    isBatteryName [67, 77, 66, 48, 45, 98, 97, 116, 116, 101, 114, 121] = true ∧                -- CMB0-battery
+    isBatteryName [109, 97, 105, 110, 45, 66, 97, 116, 116, 101, 114, 121] = true ∧             -- main-Battery
+    isBatteryName [67, 77, 66, 48] = false ∧                                                   -- CMB0
+    isBatteryName [98, 97, 116, 48] = false ∧                                                  -- bat0
+    isBatteryName [65, 67, 48] = false ∧                                                       -- AC0
+    lexLe [66, 65, 84, 49] [104, 105, 100, 112, 112, 95, 98, 97, 116, 116, 101, 114, 121, 95, 48] = true ∧
+    lexLe [66, 65, 84, 48] [66, 65, 84, 49] = true ∧
+    lexLe [67, 77, 66, 48, 45, 98, 97, 116, 116, 101, 114, 121] [98, 97, 116, 116, 101, 114, 121] = true := by decide
+
+/-- **The battery the code reads = the lexicographic minimum among the names matching the rule**:
+    `min(bats)` is a member of the matching names, below every one of them (byte order), and the
+    directory opened for it is the specification's first battery. -/
+theorem C19_battery_selection (ss : List Supply) (n : Bytes) (ns : List Bytes)
+    (h : (ss.map (·.name)).filter (isBattery cfg) = n :: ns) :
+    lexMin n ns ∈ n :: ns ∧ (∀ y ∈ n :: ns, lexLe (lexMin n ns) y = true) ∧
+    findSupply ss (lexMin n ns) = firstBattery ss :=
+  ⟨lexMin_mem n ns, lexMin_le n ns, first_battery cfg cfg_good ss n ns h⟩
+
+/-- a matching name exists ⇒ a first battery exists (never None for want of a minimum), and the
+    minimum is unique up to the name -/
+theorem C19_first_battery_exists_unique (ss : List Supply) (h : ∃ s ∈ ss, isBatteryName s.name = true) :
+    ∃ b, firstBattery ss = some b ∧
+      ∀ b' ∈ ss, isBatteryName b'.name = true →
+        (∀ x ∈ ss, isBatteryName x.name = true → lexLe b'.name x.name = true) → b'.name = b.name := by
+  obtain ⟨b, hb⟩ := firstBattery_exists ss h
+  refine ⟨b, hb, fun b' hb' hn hmin => ?_⟩
+  obtain ⟨h1, h2, h3⟩ := C19_first_battery ss b hb
+  exact lexLe_antisymm _ _ (hmin b h1 h2) (h3 b' hb' hn)
+
+/-- **Blanks and newlines around a number or a text are not seen**: `int()`, `float()` and
+    `.strip()` give the same for `"  42 \n\n"` as for `"42"` (files of fans, batteries, sensors). -/
+theorem C19_whitespace_insensitive (pre s post : Bytes) (h1 : AllWs pre) (h2 : AllWs post) :
+    pyInt? (pre ++ s ++ post) = pyInt? s ∧ pyFloat? (pre ++ s ++ post) = pyFloat? s ∧
+    stripWs (pre ++ s ++ post) = stripWs s :=
+  ⟨pyInt_pad pre s post h1 h2, pyFloat_pad pre s post h1 h2, stripWs_pad pre s post h1 h2⟩
+
+/-- a kernel integer with any blanks around it reads back exactly, negative ones included -/
+theorem C19_kernel_value_padded (pre post : Bytes) (h1 : AllWs pre) (h2 : AllWs post) (i : Int) :
+    pyInt? (pre ++ renderInt i ++ post) = some i ∧ pyFloat? (pre ++ renderInt i ++ post) = some (i : Rat) := by
+  have hnl : AllWs [10] := by intro c hc; simp at hc; subst hc; decide
+  have e1 : pyInt? (renderInt i) = some i := by
+    have := pyInt_pad [] (renderInt i) [10] (by intro c hc; cases hc) hnl
+    rw [← this]; exact pyInt_kernelInt i
+  have e2 : pyFloat? (renderInt i) = some (i : Rat) := by
+    have := pyFloat_pad [] (renderInt i) [10] (by intro c hc; cases hc) hnl
+    rw [← this]; exact pyFloat_renderInt_strip i
+  exact ⟨by rw [pyInt_pad pre _ post h1 h2, e1], by rw [pyFloat_pad pre _ post h1 h2, e2]⟩
+
+/-- every battery figure (`multi_bcat` over the alternatives), and the views the specification
+    takes of a file, are unchanged when the files are padded with blanks/newlines -/
+theorem C19_battery_reads_whitespace (pre post : Bytes) (h1 : AllWs pre) (h2 : AllWs post) :
+    (∀ fs, multiBcat (fs.map (pad pre post)) = multiBcat fs) ∧
+    (∀ f, fileInt (pad pre post f) = fileInt f) ∧ (∀ f, fileNum (pad pre post f) = fileNum f) ∧
+    (∀ f, fileText (pad pre post f) = fileText f) :=
+  ⟨multiBcat_pad pre post h1 h2, fileInt_pad pre post h1 h2, fileNum_pad pre post h1 h2, fileText_pad pre post h1 h2⟩
+
+/-- a fan row is unchanged when reading, label and chip name are padded -/
+theorem C19_fans_whitespace (pre post : Bytes) (h1 : AllWs pre) (h2 : AllWs post) (c : Chip) (f : Fan) :
+    readFan cfg { c with name := pad pre post c.name }
+      { f with input := pad pre post f.input, label := pad pre post f.label } = readFan cfg c f := by
+  have e1 : ∀ b, pyInt? (pre ++ (b ++ post)) = pyInt? b := fun b => by
+    rw [← List.append_assoc]; exact pyInt_pad pre b post h1 h2
+  have e2 : ∀ b, stripWs (pre ++ (b ++ post)) = stripWs b := fun b => by
+    rw [← List.append_assoc]; exact stripWs_pad pre b post h1 h2
+  unfold readFan
+  cases hi : f.input <;> cases hn : c.name <;> cases hl : f.label <;>
+    simp [pad, FileState.read, FileState.readOpt, e1, e2]
+
+/-- **Negative figures** (the power_supply ABI prints a discharging `current_now` as a NEGATIVE
+    number on some drivers): the formula is applied as it stands, so with now ≥ 0 and power < 0 the
+    seconds left are ≤ 0; with power > 0 they are ≥ 0 and can never be mistaken for the two
+    sentinels. Characterisation of the code as it is (the property states the formula, no `abs`). -/
+theorem C19_secsleft_sign (n p : Int) (tte : Option Int) (hn : 0 ≤ n) (pl : Option Bool) (hpl : pl ≠ some true) :
+    (p < 0 → secsleftOf pl (some n) (some p) tte ≤ 0) ∧ (0 < p → 0 ≤ secsleftOf pl (some n) (some p) tte) := by
+  constructor
+  · intro hp
+    have hp0 : p ≠ 0 := by omega
+    simp only [secsleftOf, hpl, if_false, hp0]
+    apply truncRat_nonpos
+    have : (n : Rat) / (p : Rat) ≤ 0 := div_nonpos_of_nonneg_of_nonpos (by exact_mod_cast hn) (by exact_mod_cast hp.le)
+    exact mul_nonpos_of_nonpos_of_nonneg this (by norm_num)
+  · intro hp
+    have hp0 : p ≠ 0 := by omega
+    simp only [secsleftOf, hpl, if_false, hp0]
+    apply truncRat_nonneg
+    have : 0 ≤ (n : Rat) / (p : Rat) := div_nonneg (by exact_mod_cast hn) (by exact_mod_cast hp.le)
+    exact mul_nonneg this (by norm_num)
+
+/-- …and a negative power figure CAN produce exactly the sentinel values: 1 µWh at −3600 µW gives
+    −1 (= POWER_TIME_UNKNOWN), 2 µWh gives −2 (= POWER_TIME_UNLIMITED) -/
+theorem C19_secsleft_negative_collides :
+    secsleftOf (some false) (some 1) (some (-3600)) none = -1 ∧
+    secsleftOf (some false) (some 2) (some (-3600)) none = -2 := by
+  have t (k : Int) (hk : 0 < k) : truncRat (-(k : Rat)) = -k := by
+    unfold truncRat
+    have : ¬ (0 : Rat) ≤ -(k : Rat) := by
+      have : (0 : Rat) < (k : Rat) := by exact_mod_cast hk
+      linarith
+    simp only [this, if_false, neg_neg, Rat.floor_intCast]
+  constructor
+  · have e : ((1 : Int) : Rat) / ((-3600 : Int) : Rat) * 3600 = -((1 : Int) : Rat) := by norm_num
+    simp only [secsleftOf]
+    rw [if_neg (by decide), if_neg (by decide), e, t 1 (by decide)]
+  · have e : ((2 : Int) : Rat) / ((-3600 : Int) : Rat) * 3600 = -((2 : Int) : Rat) := by norm_num
+    simp only [secsleftOf]
+    rw [if_neg (by decide), if_neg (by decide), e, t 2 (by decide)]
 
 end Psutil.C19
